@@ -32,19 +32,26 @@ def _neigh(v, span, transp):
                 yield v[:i] + b + a + v[i + 2:], 'swap:digit'
 
 
-def _check_number(res, name, m, v, spanf, transp):
+def _check_number(res, name, m, v, spanf, transp, optsets=({},)):
     n = 0
     t = transp(v) if callable(transp) else transp
     for w, kind in _neigh(v, list(spanf(v)), t):
-        n += 1
-        try:
-            ok = m.is_valid(w)
-        except Exception:
-            ok = False    # C01's business
-        if ok:
-            res.viol(ID, 'accepted-mutant', name, 'is_valid', {'module': name, 'valid': v, 'mutant': w},
-                     'valid %r and single-error mutant %r are both accepted' % (v, w), 'mutant rejected',
-                     devclass=kind + ':len%d' % len(v), rank=[0, len(v), v + w])
+        for opts in optsets:
+            n += 1
+            try:
+                if opts:
+                    m.validate(w, **opts)
+                    ok = True
+                else:
+                    ok = m.is_valid(w)
+            except Exception:
+                ok = False    # rejected (other exceptions are C01's business)
+            if ok:
+                res.viol(ID, 'accepted-mutant', name, 'is_valid' if not opts else 'validate',
+                         {'module': name, 'valid': v, 'mutant': w, 'options': {k: core.enc(x) for k, x in opts.items()}},
+                         'valid %r and single-error mutant %r are both accepted%s' % (v, w, ' with %r' % opts if opts else ''),
+                         'mutant rejected', excinfo='+'.join(sorted(opts)),
+                         devclass=kind + ':len%d' % len(v), rank=[0, len(v), v + w])
     return n
 
 
@@ -70,11 +77,15 @@ def work(item):
     values = sorted(set(values) | set(_full_space(name, m, tier)))
     n = 0
     used = 0
+    from ..tables.options import option_sets
+    optsets = [o for o in option_sets(name, m.validate)[0]
+               if not o or list(o)[0] in ('convert', 'strip_check_digits', 'add_check_digits', 'check_country',
+                                           'allow_temporary', 'validate_manufacturer')]
     for v in values:
         if guard and not guard(v):
             continue
         used += 1
-        n += _check_number(res, name, m, v, spanf, transp)
+        n += _check_number(res, name, m, v, spanf, transp, optsets if used <= 200 else ({},))
     res['states'] = n + len(values)
     res['transitions'] = n + stats['edges']
     res['evaluations'] = n + stats['tried']
@@ -95,12 +106,19 @@ def replay(case):
     m = core.modules()[name]
     res = Result()
     v, w = case['valid'], case['mutant']
+    opts = {k: core.dec(x) for k, x in case.get('options', {}).items()}
     try:
-        if m.is_valid(v) and m.is_valid(w):
+        if opts:
+            m.validate(v)
+            m.validate(w, **opts)
+            both = True
+        else:
+            both = m.is_valid(v) and m.is_valid(w)
+        if both:
             kind = 'swap:digit' if sorted(v) == sorted(w) and v != w and sum(a != b for a, b in zip(v, w)) == 2 else \
                 'sub:' + ('digit' if [b for a, b in zip(v, w) if a != b][0] in e2.D else 'letter')
-            res.viol(ID, 'accepted-mutant', name, 'is_valid', case, 'both accepted', 'mutant rejected',
-                     devclass=kind + ':len%d' % len(v))
+            res.viol(ID, 'accepted-mutant', name, 'is_valid' if not opts else 'validate', case, 'both accepted',
+                     'mutant rejected', excinfo='+'.join(sorted(opts)), devclass=kind + ':len%d' % len(v))
     except Exception:
         pass
     return res['violations']
